@@ -114,14 +114,13 @@ fn mutations(orig: &[Vec<u8>], extra: &[Vec<u8>], pairs: bool) -> Vec<Vec<Vec<u8
                 }
             }
         }
-        // one extra element at the bottom / top
+        // one extra element at every position (bottom, every gap, top)
         for r in [vec![], vec![1u8]] {
-            let mut d = v.to_vec();
-            d.insert(0, r.clone());
-            out.push(d);
-            let mut d = v.to_vec();
-            d.push(r);
-            out.push(d);
+            for i in 0..=v.len() {
+                let mut d = v.to_vec();
+                d.insert(i, r.clone());
+                out.push(d);
+            }
         }
         out
     }
